@@ -61,7 +61,8 @@ def gen_instances(rng, n, kind="plain"):
         if kind == "plain":
             m = i % 4
             if m == 0: I = gen_layered(r, nvars=r.range(3, 6), per_layer=r.range(2, 5), dom_max=r.range(1, 3))
-            elif m == 1: I = gen_layered(r, nvars=r.range(4, 6), per_layer=2, dom_max=3)            # heavy re-convergence
+            elif m == 1 and i % 8 == 1: I = gen_layered(r, nvars=r.range(4, 6), per_layer=2, dom_max=3)            # heavy re-convergence
+            elif m == 1: I = gen_chain(r, nvars=r.range(4, 7), per_layer=r.range(3, 5), dom_max=r.range(1, 3))  # chain relaxation (merge result = real state, recycling)
             elif m == 2: I = gen_layered(r, nvars=r.range(2, 4), per_layer=r.range(1, 3), dom_max=2, cost_lo=-6, cost_hi=0)  # negative optimum
             else: I = gen_layered(r, nvars=r.range(4, 7), per_layer=r.range(3, 5), dom_max=2, depth_free=True, dominance=0)  # state does not embed depth
         elif kind == "reconv":
@@ -249,6 +250,15 @@ def check_c01(tier, pid="C01"):
                     sc.chk.violation("property", "the caching solver returns %s, the non-caching solver %s (flavour %s fringe %s width %s dominance %s)"
                                      % (v, by_cfg.get((flv, fr, w, dom, "0")), flv, fr, w, dom), describe(I, "cache on vs off", str(by_cfg)))
     extra = None
+    if pid in ("C01", "C02"):
+        # the solver theorems are about Solver.maximize ON TOP OF Mdd.compile: tie the diagram model to the code here as well
+        import check_mdd
+        st = check_mdd.Stream(sc.chk, tier, types=(2, 1), widths=(1, 2, 3), ninst=(60 if tier == "quick" else 600))
+        res = st.run()
+        ag, ds = check_mdd.correspondence(sc.chk, res, ["status", "cx", "cv", "x", "bv", "bs", "ev", "es", "CS", "DOT"])
+        extra = {"diagram_level_stream": {"compilations": sum(len(r) for _, r in res), "agreements": ag, "disagreements": len(ds)}}
+        for (I, meta, li, lm, case, why) in ds[:10]:
+            sc.dis.append((I, case, li[:1200], lm[:1200], "diagram-level " + str(why)))
     if pid == "C09":
         # diagram-level stream with the threshold cache (and dominance store) shared across compilations, as the solvers do:
         # thresholds, cache calls and pruning flags of every compilation must equal the model's
